@@ -69,6 +69,11 @@ Sigs(e) ==
         \cup (IF e.obu # << 1, 2, 3, 4, 5, 6, 7, 8, 15 >> THEN {VSig("Constants", "av1::obu_type", "value")} ELSE {})
         \cup (IF e.default_sps = << >> \/ e.default_sps[1] % 32 # 7 \/ e.default_pps = << >> \/ e.default_pps[1] % 32 # 8
               THEN {VSig("Constants", "h264::DEFAULT_SPS/PPS", "nal-type")} ELSE {})
+    ELSE IF e.f = "opusconfig" THEN
+        (IF e.version # 0 \/ e.channels # 2 \/ e.pre_skip # 312 \/ e.rate # 48000 \/ e.gain # 0 \/ e.family # 0 \/ e.mono # 1 \/ e.stereo # 2 \/ e.preskip_set # 1000
+         THEN {VSig("Defaults", "OpusConfig", "value")} ELSE {})
+        \cup (IF \E i \in 1..Len(e.with_channels) : LET t == e.with_channels[i] IN t[2] # t[1] \/ t[3] # (IF t[1] > 2 THEN 1 ELSE 0)
+              THEN {VSig("Defaults", "OpusConfig::with_channels", "mapping-family")} ELSE {})
     ELSE IF e.f = "vcodec_fromstr" THEN
         (IF e.ok # (e.s \in VCodecNames) THEN {VSig("FromStr", "VideoCodec", IF e.ok THEN "accepts-unknown" ELSE "rejects-known")} ELSE {})
         \cup (IF e.ok /\ ~e.roundtrip THEN {VSig("FromStr", "VideoCodec", "display-does-not-parse-back")} ELSE {})
